@@ -211,6 +211,13 @@ def _run(case, cfg, w):
         sc.open(b)
         for ns in NSS[:2]:
             sid = sc.connect(b, ns)
+            if sid is None:
+                v.add('bystander_cannot_connect', 'bystander %d on %s was '
+                      'not accepted' % (b, ns))
+                return {'violations': v.items, 'digest': w.rec.digest.hex(),
+                        'nontrivial': False, 'stats': {}, 'sim_time': 0.0,
+                        'cfg': 'setup', 'choices': w.choices.dump(),
+                        'log': w.rec.dump_log()}
             by_sids[(b, ns)] = sid
             srv_call(w, 'enter_room', sid, 'lobby', namespace=ns)
             srv_call(w, 'save_session', sid, {'owner': b, 'ns': ns},
